@@ -331,6 +331,7 @@ MemGoal == /\ Limit < W /\ \A p \in Peers : pend[p] = <<>>
            /\ offset + 1 <= NMax /\ slot[offset + 1].a /\ slot[offset + 1].hd \notin done /\ queue[slot[offset + 1].hd] > 0
            /\ Cardinality({ n \in Nums : n > offset + 1 /\ slot[n].a /\ slot[n].hd \in done }) >= Limit
 NoMemGoal == ~MemGoal \/ Cex("goal:memcap")
+GView == <<lastsz, base, sess, head, acc, pool, queue, pend, done, slot, offset, lacks, faults, broken, delivered, old>>
 
 \* ---------------------------------------------------------------- liveness
 \* "the full range completes as long as some peer eventually answers honestly": every request is eventually answered or
